@@ -1,2 +1,3 @@
 import AgdbStorage.Model.Bytes
 import AgdbStorage.Model.Wal
+import AgdbStorage.Model.Driver
